@@ -2,6 +2,7 @@ package props
 
 import (
 	"fmt"
+	"os"
 	"sort"
 	"strings"
 	"time"
@@ -176,16 +177,72 @@ type c02Out struct {
 	Left int
 }
 
-// c02State: cursor into the flattened parts; start offset of part P.
-type c02State struct {
-	Started bool          // start instant known
-	S0      time.Duration // start instant of part 0 relative to t0
+// c02Alt is one possible abstract state: cursor into the flattened parts and
+// the start instant of part 0. An un-started schedule takes its start from the
+// clock inside the first operation that starts it: always the first Next, and
+// possibly an earlier Left (pandora's composite may advance - and thereby start -
+// nested schedules inside Left; the property does not regulate that), so the
+// model keeps the set of alternatives consistent with the history so far.
+type c02Alt struct {
+	Started bool
+	S0      time.Duration
 	P, I    int
+}
+
+// c02State is the (sorted, deduplicated) set of alternatives, encoded as a
+// comparable string for porcupine.
+type c02State string
+
+func c02Enc(alts []c02Alt) c02State {
+	sort.Slice(alts, func(i, j int) bool {
+		a, b := alts[i], alts[j]
+		if a.Started != b.Started {
+			return !a.Started
+		}
+		if a.S0 != b.S0 {
+			return a.S0 < b.S0
+		}
+		if a.P != b.P {
+			return a.P < b.P
+		}
+		return a.I < b.I
+	})
+	var sb strings.Builder
+	var last c02Alt
+	for k, a := range alts {
+		if k > 0 && a == last {
+			continue
+		}
+		last = a
+		fmt.Fprintf(&sb, "%v,%d,%d,%d;", a.Started, int64(a.S0), a.P, a.I)
+	}
+	return c02State(sb.String())
+}
+
+func c02Dec(st c02State) []c02Alt {
+	var out []c02Alt
+	for _, f := range strings.Split(string(st), ";") {
+		if f == "" {
+			continue
+		}
+		var a c02Alt
+		var s0 int64
+		var started string
+		q := strings.Split(f, ",")
+		started = q[0]
+		fmt.Sscan(q[1], &s0)
+		fmt.Sscan(q[2], &a.P)
+		fmt.Sscan(q[3], &a.I)
+		a.Started = started == "true"
+		a.S0 = time.Duration(s0)
+		out = append(out, a)
+	}
+	return out
 }
 
 type c02Model struct {
 	parts []c02Part
-	// explicit start offset (>=0) or -1 when the schedule is started by its first Next
+	// explicit start offset (>=0) or -1 when the schedule is started by its first operation
 	start time.Duration
 }
 
@@ -198,21 +255,8 @@ func (m *c02Model) partStart(s0 time.Duration, q int) time.Duration {
 	return t
 }
 
-// stepNext validates a Next result and returns the successor state.
-func (m *c02Model) stepNext(st c02State, in c02In, out c02Out) (bool, c02State) {
-	if !st.Started {
-		// un-started schedule: the first Next starts it at an instant inside the call
-		// interval; find the first part that can deliver and derive S0 from the output.
-		// (only finite parts give an exact equation; for others any instant in the interval)
-		for _, s0 := range []time.Duration{in.CallT, in.RetT} {
-			ns := st
-			ns.Started, ns.S0 = true, s0
-			if ok, r := m.stepNext(ns, in, out); ok {
-				return true, r
-			}
-		}
-		return false, st
-	}
+// nextAlt validates a Next result against one started alternative.
+func (m *c02Model) nextAlt(st c02Alt, in c02In, out c02Out) (bool, c02Alt) {
 	last := len(m.parts) - 1
 	p, i := st.P, st.I
 	for {
@@ -220,28 +264,25 @@ func (m *c02Model) stepNext(st c02State, in c02In, out c02Out) (bool, c02State) 
 		ps := m.partStart(st.S0, p)
 		if part.Unlimited {
 			fin := ps + part.Dur
-			// may deliver `now` if some instant of the call lies before fin
-			if out.OK && out.Tok >= in.CallT && out.Tok <= in.RetT && out.Tok < fin && out.Tok >= ps-0 {
-				// is this the part the token comes from? all earlier candidates were exhausted already
-				return true, c02State{Started: true, S0: st.S0, P: p, I: 0}
+			// token = the clock reading inside the call, but never before the part's start
+			if out.OK && out.Tok < fin && ((out.Tok >= in.CallT && out.Tok <= in.RetT && out.Tok >= ps) || (out.Tok == ps && in.CallT <= ps)) {
+				return true, c02Alt{Started: true, S0: st.S0, P: p, I: 0}
 			}
 			// otherwise it must be finished within the call
 			if fin > in.RetT {
 				return false, st
 			}
-		} else {
-			if i < len(part.Offs) {
-				// this part must deliver
-				if out.OK && out.Tok == ps+part.Offs[i] {
-					return true, c02State{Started: true, S0: st.S0, P: p, I: i + 1}
-				}
-				return false, st
+		} else if i < len(part.Offs) {
+			// this part must deliver
+			if out.OK && out.Tok == ps+part.Offs[i] {
+				return true, c02Alt{Started: true, S0: st.S0, P: p, I: i + 1}
 			}
+			return false, st
 		}
 		if p == last {
 			fin := ps + part.Dur
 			if !out.OK && out.Tok == fin {
-				return true, c02State{Started: true, S0: st.S0, P: p, I: i}
+				return true, c02Alt{Started: true, S0: st.S0, P: p, I: i}
 			}
 			return false, st
 		}
@@ -250,29 +291,23 @@ func (m *c02Model) stepNext(st c02State, in c02In, out c02Out) (bool, c02State) 
 	}
 }
 
-func (m *c02Model) stepLeft(st c02State, in c02In, out c02Out) bool {
+// leftAlt validates a Left result against one alternative.
+func (m *c02Model) leftAlt(st c02Alt, in c02In, out c02Out) bool {
 	// exact remaining over finite parts from the cursor; unlimited parts at or after
 	// the cursor make the total unknown while they have not finished.
-	s0 := st.S0
-	if !st.Started {
-		s0 = in.CallT // not started: nothing can have finished
-	}
 	exact := 0
-	unknownAtCall := false // some unlimited part ahead not finished at the call instant (or not started)
+	unknownAtCall := false // some unlimited part ahead not finished at the call instant (or not started / not reached)
 	unknownAtRet := false  // ... not finished even at return
 	for q := st.P; q < len(m.parts); q++ {
 		part := m.parts[q]
 		if part.Unlimited {
-			fin := m.partStart(s0, q) + part.Dur
-			if !st.Started || fin > in.CallT {
+			fin := m.partStart(st.S0, q) + part.Dur
+			if !st.Started || fin > in.CallT || q > st.P {
+				// (an unlimited part that has not been reached cannot know that it is over)
 				unknownAtCall = true
 			}
 			if !st.Started || fin > in.RetT {
 				unknownAtRet = true
-			}
-			// an unlimited part that has not been reached cannot know it is over
-			if q > st.P {
-				unknownAtCall = true
 			}
 			continue
 		}
@@ -294,23 +329,47 @@ func (m *c02Model) stepLeft(st c02State, in c02In, out c02Out) bool {
 	return out.Left == exact
 }
 
+func (m *c02Model) step(state c02State, in c02In, out c02Out) (bool, c02State) {
+	var succ []c02Alt
+	for _, a := range c02Dec(state) {
+		cands := []c02Alt{a}
+		if !a.Started {
+			// the operation may be the one that starts the schedule, at an instant inside the call
+			cands = nil
+			if in.Kind == "left" {
+				cands = append(cands, a)
+			}
+			cands = append(cands, c02Alt{Started: true, S0: in.CallT}, c02Alt{Started: true, S0: in.RetT})
+		}
+		for _, c := range cands {
+			if in.Kind == "next" {
+				if ok, n := m.nextAlt(c, in, out); ok {
+					succ = append(succ, n)
+				}
+			} else if m.leftAlt(c, in, out) {
+				succ = append(succ, c)
+			}
+		}
+	}
+	if len(succ) == 0 {
+		return false, state
+	}
+	return true, c02Enc(succ)
+}
+
+func (m *c02Model) init() c02State {
+	if m.start >= 0 {
+		return c02Enc([]c02Alt{{Started: true, S0: m.start}})
+	}
+	return c02Enc([]c02Alt{{}})
+}
+
 func (m *c02Model) porcupine() porcupine.Model {
 	return porcupine.Model{
-		Init: func() interface{} {
-			if m.start >= 0 {
-				return c02State{Started: true, S0: m.start}
-			}
-			return c02State{}
-		},
+		Init: func() interface{} { return m.init() },
 		Step: func(state, input, output interface{}) (bool, interface{}) {
-			st := state.(c02State)
-			in := input.(c02In)
-			out := output.(c02Out)
-			if in.Kind == "next" {
-				ok, ns := m.stepNext(st, in, out)
-				return ok, ns
-			}
-			return m.stepLeft(st, in, out), st
+			ok, ns := m.step(state.(c02State), input.(c02In), output.(c02Out))
+			return ok, ns
 		},
 		Equal: func(a, b interface{}) bool { return a.(c02State) == b.(c02State) },
 		DescribeOperation: func(input, output interface{}) string {
@@ -525,22 +584,20 @@ func runC02(r *R) {
 // history sequentially in return order and names the first operation kind the
 // model rejects.
 func c02Classify(m *c02Model, ops []c02Op) string {
-	st := c02State{}
-	if m.start >= 0 {
-		st = c02State{Started: true, S0: m.start}
-	}
+	st := m.init()
 	sorted := append([]c02Op(nil), ops...)
 	sort.Slice(sorted, func(i, j int) bool { return sorted[i].Ret < sorted[j].Ret })
 	for _, o := range sorted {
 		in := c02In{Kind: o.Kind, CallT: o.CallT, RetT: o.RetT}
 		out := c02Out{Tok: o.Tok, OK: o.OK, Left: o.Left}
-		if o.Kind == "next" {
-			ok, ns := m.stepNext(st, in, out)
-			if !ok {
+		ok, ns := m.step(st, in, out)
+		if !ok {
+			if os.Getenv("VERIF_DEBUG") != "" {
+				fmt.Fprintf(os.Stderr, "model rejects %+v in state %s\n", o, st)
+			}
+			if o.Kind == "next" {
 				return "next"
 			}
-			st = ns
-		} else if !m.stepLeft(st, in, out) {
 			if o.Left == 0 {
 				return "left-zero-with-tokens"
 			}
@@ -549,6 +606,7 @@ func c02Classify(m *c02Model, ops []c02Op) string {
 			}
 			return "left-inexact"
 		}
+		st = ns
 	}
 	return "interleaving"
 }
